@@ -167,7 +167,7 @@ func c18WaitListening(kind, addr string) bool {
 
 func TestVerifC18Servers(t *testing.T) {
 	L := ev.Begin("C18", "c18-servers", "exploration",
-		"scenario matrix on real servers started through fabio's own ListenAndServe*: listener {http, https, tcp, grpc, https+tcp+sni} x in-flight work {none, finishes when released, never ends (hanging handler / open tunnel / open gRPC stream)} x shutdown moment {before any request, request inside its handler, released right after shutdown began}, sequenced by causal barriers (handler-entered and listener-refuses-connect signals), then proxy.Shutdown(wait). oracle: after shutdown began connects fail; released work completes with its normal result; Shutdown returns within wait + 5s slack (a miss means 'did not return'). non-trivial = every scenario")
+		"scenario matrix on real servers started through fabio's own ListenAndServe*: listener {http, https, tcp, grpc, https+tcp+sni} x in-flight work {none, finishes when released, never ends (hanging handler / open tunnel / open gRPC stream)} x shutdown moment {before any request, request inside its handler, released right after shutdown began}, sequenced by causal barriers (handler-entered and listener-refuses-connect signals), then proxy.Shutdown(wait); plus every ordered pair of an idle and a busy listener of different kinds whose work ends 300 ms after shutdown began. oracle: after shutdown began connects fail; released work completes with its normal result; Shutdown returns within wait + 5s slack (a miss means 'did not return'). non-trivial = every scenario")
 	kinds := []string{"http", "https", "tcp", "grpc", "https+tcp+sni"}
 	type scn struct {
 		kind string
@@ -178,6 +178,58 @@ func TestVerifC18Servers(t *testing.T) {
 		for _, w := range []string{"none", "released", "never"} {
 			scs = append(scs, scn{k, w})
 		}
+	}
+	// several listeners at once: one idle (finishes its shutdown at once), one with work
+	// that ends well within the wait
+	type pair struct{ idle, busy string }
+	var pairs []pair
+	for _, a := range []string{"http", "grpc", "tcp"} {
+		for _, b := range []string{"tcp", "http", "grpc"} {
+			if a != b {
+				pairs = append(pairs, pair{a, b})
+			}
+		}
+	}
+	for _, pr := range pairs {
+		idleAddr, busyAddr := c18FreeAddr(), c18FreeAddr()
+		wi, wb := newC18Work(), newC18Work()
+		c18Start(pr.idle, idleAddr, wi)
+		do := c18Start(pr.busy, busyAddr, wb)
+		if !c18WaitListening(pr.idle, idleAddr) || !c18WaitListening(pr.busy, busyAddr) {
+			panic("VERIF-INFRA: listeners did not come up")
+		}
+		L.Case()
+		L.NontrivialKey(fmt.Sprint("pair", pr))
+		d := map[string]interface{}{"idle_listener": pr.idle, "busy_listener": pr.busy, "in_flight": "finishes 300ms after shutdown began (wait 3s)"}
+		result := make(chan string, 1)
+		go func() { result <- do() }()
+		select {
+		case <-wb.entered:
+		case <-time.After(20 * time.Second):
+			panic("VERIF-INFRA: work never entered its handler")
+		}
+		returned := make(chan struct{})
+		start := time.Now()
+		go func() { Shutdown(3 * time.Second); close(returned) }()
+		time.Sleep(300 * time.Millisecond) // well inside the wait; only delays the release, nothing is asserted on it
+		close(wb.release)
+		select {
+		case r := <-result:
+			d["work_result"] = r
+			if !strings.HasSuffix(r, "done") {
+				L.Violation("in-flight-work-cut-off-when-another-listener-finished-its-shutdown/"+pr.busy, d)
+			}
+		case <-time.After(20 * time.Second):
+			L.Violation("in-flight-work-released-within-the-wait-never-completed/"+pr.busy, d)
+		}
+		select {
+		case <-returned:
+			d["shutdown_returned_after"] = time.Since(start).String()
+		case <-time.After(12 * time.Second):
+			L.Violation("shutdown-did-not-return-within-the-wait/"+pr.busy+"/pair", d)
+		}
+		L.Sample(d)
+		close(wi.release)
 	}
 	var cleanup []*c18Work
 	for _, s := range scs {
